@@ -444,7 +444,8 @@ impl WriteSource for pr::Stmt {
                 pr::VarDefKind::Into | pr::VarDefKind::Main => {
                     let val = var_def.value.as_ref().unwrap();
                     match &val.kind {
-                        pr::ExprKind::Pipeline(pipeline) => {
+                        // (an aliased pipeline is written as one expression, or the alias is lost)
+                        pr::ExprKind::Pipeline(pipeline) if val.alias.is_none() => {
                             for expr in &pipeline.exprs {
                                 r += &expr.write(opt.clone())?;
                                 r += "\n";
